@@ -518,6 +518,30 @@ pub fn main(args: &Args) {
         })
         .reduce(Tally::default, Tally::merge);
     rep.absorb(tl);
+    // long lists: the item forms in rotation (every starting offset), at lengths around the sizes
+    // where buffers and counters change regime
+    {
+        let mut long: Vec<String> = vec![];
+        for n in [5usize, 8, 9, 16, 17, 33, 65] {
+            for off in 0..ITEM_FORMS.len() {
+                long.push((0..n).map(|i| ITEM_FORMS[(off + i * 7) % ITEM_FORMS.len()]).collect::<Vec<_>>().join(", "));
+            }
+        }
+        let tl = long
+            .par_chunks(8)
+            .map(|chunk| {
+                let mut t = Tally::default();
+                for l in chunk {
+                    check_stream(l, &mut t);
+                    check_stream(&format!("{l},"), &mut t);
+                    t.states += 2;
+                }
+                t
+            })
+            .reduce(Tally::default, Tally::merge);
+        rep.set("long_lists", json!(long.len() * 2));
+        rep.absorb(tl);
+    }
     let tl = base_for_mutation
         .par_iter()
         .map(|l| {
